@@ -659,7 +659,17 @@ def run(ctx: Any, prog: Program) -> None:
     wsrc = U(eb)
     code_defs = [a for a in walk_no_nested(eb) if isinstance(a, ast.Assign) and isinstance(a.value, ast.Subscript) and dotted(a.value.value) == 'VAL_TYPE_TO_IND' and isinstance(a.value.slice, ast.Attribute)
                  and a.value.slice.attr == 'type' and isinstance(a.value.slice.value, ast.Name) and isinstance(a.targets[0], ast.Name)]
-    if len(code_defs) != 1 or not any(isinstance(g, ast.AugAssign) and isinstance(g.op, ast.Add) and dotted(g.target) == code_defs[0].targets[0].id and dotted(g.value) == 'ARRAY_OFFSET' for g in walk_no_nested(eb)):
+    def _offset_added(cv: str) -> bool:
+        # `code += ARRAY_OFFSET` under the array test, or `pack('B', code + ARRAY_OFFSET)` in the array arm
+        for g in walk_no_nested(eb):
+            if isinstance(g, ast.AugAssign) and isinstance(g.op, ast.Add) and dotted(g.target) == cv and dotted(g.value) == 'ARRAY_OFFSET':
+                return True
+            if isinstance(g, ast.If) and 'is_array' in U(g.test) and not (isinstance(g.test, ast.UnaryOp) and isinstance(g.test.op, ast.Not)):
+                for c_ in [x for b in g.body for x in ast.walk(b)]:
+                    if isinstance(c_, ast.BinOp) and isinstance(c_.op, ast.Add) and {dotted(c_.left), dotted(c_.right)} == {cv, 'ARRAY_OFFSET'}:
+                        return True
+        return False
+    if len(code_defs) != 1 or not _offset_added(code_defs[0].targets[0].id):
         raise AnalysisError('export_binary: type code computation idiom changed')
     wattr_var = code_defs[0].value.slice.value.id
     for m in members:
